@@ -97,7 +97,7 @@ def run(ctx):
             if c is None:
                 continue
             vl = b._origin_locals(c.args[0])
-            if any(b.local_name(x) == "mask" for x in vl):
+            if any(b.local_ty(x).startswith("std::vec::Vec<bool") for x in vl):
                 mask_true.append((i, si["true"]))
         if not mask_true:
             raise AnchorMissing("mask[i] test")
@@ -182,7 +182,12 @@ def run(ctx):
             srcs.add(l[0] + ":" + (norm_path(l[1]) if isinstance(l[1], str) else str(l[1])))
         inst.detail = "segments origins: %s" % fmt_leaves(L)
         # full_segments is built from plan.segment_ids + snapshot: a push of inflight entries into full_segments exists and is reachable after snapshot
-        pushes = [p for p in b.find_calls(r"Vec::push$") if any(b.local_name(x) == "full_segments" for x in b._origin_locals(p.args[0]))]
+        # the scan list: the Vec<String> local cloned from plan.segment_ids.read()
+        scan_lists = {x for x in range(len(b.locals)) if b.local_ty(x).startswith("std::vec::Vec<std::string::String") and
+                      any(l[0] == "call" and re.search(r"RwLock.*::read$", norm_path(l[1])) for l in b.origins({"c": [x]}))}
+        if not scan_lists:
+            raise AnchorMissing("scan list cloned from plan.segment_ids")
+        pushes = [p for p in b.find_calls(r"Vec::push$") if b._origin_locals(p.args[0]) & scan_lists]
         if not pushes:
             bad.append(("inflight-not-merged", "in-flight segments are not merged into the scanned segment list", None))
         elif not all(b.dominates_edge((snap.bb, snap.to), p.bb) for p in pushes):
